@@ -197,7 +197,8 @@ def convert_rules(ck, ix):
                      f"{kind} applied with the converter of {var}", f"`{norm(c)}` applies the converter `{shape.rnorm(c.func.value, fn)}`, not that of the offset unit extracted from `{side}`")
             ck.check(len(c.args) >= 1 and norm(c.args[0]) == "value", "G-PROV", f"nonmult_convert|{kind}-on-running-value", fi.loc(c), "applied to the running value", f"`{norm(c)}` is not applied to `value`")
             tgt = getattr(c, "_parent", None)
-            ck.check(isinstance(tgt, ast.Assign) and norm(tgt.targets[0]) == "value", "G-ERR-d", f"nonmult_convert|{kind}-result-kept", fi.loc(c), "result assigned back to value", f"the result of `{norm(c)}` is discarded")
+            kept = (isinstance(tgt, ast.Assign) and norm(tgt.targets[0]) == "value") or (kind == "from_reference" and isinstance(tgt, ast.Return))     # the converted value becomes the running value, or the result
+            ck.check(kept, "G-ERR-d", f"nonmult_convert|{kind}-result-kept", fi.loc(c), "result assigned back to value", f"the result of `{norm(c)}` is discarded")
             ck.check(is_present(c, side), "G-DOM", f"nonmult_convert|{kind}-iff-{var}", fi.loc(c), f"only when {var} was extracted", f"{kind} can run although no offset unit was extracted from `{side}`")
     for t in tor:
         p = None
@@ -228,7 +229,9 @@ def convert_rules(ck, ix):
         ck.check(okr, "G-PROV", f"nonmult_convert|{side}-offset-unit-removed", fi.loc(), f"{var} removed from {side}",
                  f"the offset unit is not removed from `{side}` before the multiplicative conversion")
         ad = [c for c in walk_local(fn) if isinstance(c, ast.Call) and call_name(c) == "_add_ref_of_log_or_offset_unit" and len(c.args) == 2 and side_of(c.args[0]) == side]
-        ck.check(len(ad) == 1 and norm(ad[0].args[1]) == side, "G-PROV", f"nonmult_convert|{side}-reference-unit-added", fi.loc(), f"reference unit of {var} added to {side}",
+        # ... to the container itself or directly to the container without the offset unit (`side.remove([unit])` inlined)
+        okad = len(ad) == 1 and (norm(ad[0].args[1]) == side or (len(rm) == 1 and shape.unalias(ad[0].args[1], fn) is rm[0]))
+        ck.check(okad, "G-PROV", f"nonmult_convert|{side}-reference-unit-added", fi.loc(), f"reference unit of {var} added to {side}",
                  f"the reference unit of the offset unit of `{side}` is not added back to `{side}`")
     # delta guard: converting offset -> delta (or delta -> offset) is refused: where an offset unit was extracted on one
     # side and the OTHER side contains a delta_ unit, DimensionalityError is raised
@@ -398,18 +401,79 @@ class _Calculus:
     def __init__(self, fi, inplace):
         self.fi, self.fn, self.inplace = fi, fi.node, inplace
         fn = self.fn
-        # roles: the names that hold the single non-multiplicative unit of self / of other
-        self.roles = {}
+        # nested single-return helpers (`def with_delta(units, u): return units.rename(u, 'delta_' + u)`): read through
+        self.nested = {d.name: d for d in ast.walk(fn) if isinstance(d, ast.FunctionDef) and d is not fn and shape.single_return(d) is not None
+                       and not d.args.vararg and not d.args.kwarg and not d.args.kwonlyargs}
+        # roles: the names that hold the single non-multiplicative unit of self / of other.  A name may be bound
+        # conditionally (`if len(x) == 1: u = x[0]`) or on every path to either the unit or None (`u = x[0] if ... else
+        # None`): in the second case it is a MARKER and `u is not None` means what is known where the unit is bound
+        self.roles, self.markers = {}, {}
+        leaves = {}
+
+        def add(name, val, at):
+            val = shape.unalias(val, fn) if isinstance(val, ast.Name) else val
+            if isinstance(val, ast.IfExp):
+                add(name, val.body, val.body)
+                add(name, val.orelse, val.orelse)
+            else:
+                leaves.setdefault(name, []).append((val, at))
         for a in walk_local(fn):
-            if isinstance(a, ast.Assign) and len(a.targets) == 1 and isinstance(a.targets[0], ast.Name):
-                r = self.unit_role(shape.resolve(a.value, fn))
-                if r:
-                    self.roles[a.targets[0].id] = r
+            if isinstance(a, ast.Assign) and len(a.targets) == 1:
+                t = a.targets[0]
+                if isinstance(t, ast.Name):
+                    add(t.id, a.value, a)
+                elif isinstance(t, (ast.Tuple, ast.List)) and len(t.elts) == 1 and isinstance(t.elts[0], ast.Name):
+                    add(t.elts[0].id, ast.Subscript(value=a.value, slice=ast.Constant(value=0), ctx=ast.Load()), a)
+        for _pass in range(2):            # a marker may be defined through another role name
+            for name, ls in leaves.items():
+                rs = {self.unit_role(self._resolved(v)) for v, _at in ls if not (isinstance(v, ast.Constant) and v.value is None)}
+                if len(rs) == 1 and None not in rs:
+                    self.roles[name] = rs.pop()
+        for name, ls in leaves.items():
+            some = [(v, at) for v, at in ls if not (isinstance(v, ast.Constant) and v.value is None)]
+            if name in self.roles and len(some) == 1 and len(some) < len(ls):
+                self.markers[name] = some[0][1]
+        self._marker_lits = {}
+
+    def _resolved(self, e):
+        try:
+            return shape.resolve(e, self.fn) if any(getattr(x, "_parent", None) is not None for x in ast.walk(e)) else e
+        except RecursionError:
+            return e
+
+    def marker_literals(self, name):
+        """the vocabulary literals known where the marker is bound to the unit"""
+        if name not in self._marker_lits:
+            self._marker_lits[name] = set()          # (guards against recursion)
+            self._marker_lits[name] = set(self.knowledge(self.markers[name])[0])
+        return self._marker_lits[name]
+
+    def through_helpers(self, e):
+        """`e` with calls of nested single-return helpers replaced by the helper's expression"""
+        nested = self.nested
+
+        class T(ast.NodeTransformer):
+            def visit_Call(self, c):
+                self.generic_visit(c)
+                d = nested.get(c.func.id) if isinstance(c.func, ast.Name) else None
+                if d is not None and not c.keywords and len(c.args) == len(d.args.args) and not any(isinstance(x, ast.Starred) for x in c.args):
+                    sub = {p.arg: x for p, x in zip(d.args.args, c.args)}
+
+                    class S(ast.NodeTransformer):
+                        def visit_Name(self, n):
+                            return sub[n.id] if n.id in sub and isinstance(n.ctx, ast.Load) else n
+                    from ..flow import clone
+                    return S().visit(clone(shape.single_return(d)))
+                return c
+        return T().visit(e) if nested else e
 
     def unit_role(self, e):
         """'u' / "u'" if the (resolved) expression denotes the single non-multiplicative unit of self / other"""
         if isinstance(e, ast.Name):
             return self.roles.get(e.id)
+        if isinstance(e, ast.IfExp):          # `<unit> if <it is the only one> else None`
+            alts = [x for x in (e.body, e.orelse) if not (isinstance(x, ast.Constant) and x.value is None)]
+            return self.unit_role(alts[0]) if len(alts) == 1 else None
         for who, r in (("self", "u"), ("other", "u'")):
             if any(shape.match(p, e) is not None for p in (f"{who}._get_non_multiplicative_units()[0]", f"next(iter({who}._get_non_multiplicative_units()))", f"{who}._get_non_multiplicative_units().pop()")):
                 return r
@@ -440,32 +504,63 @@ class _Calculus:
             return ("?" + norm(r) if pos else "NOT ?" + norm(r)), False
         return "?" + norm(atom), False
 
+    def meaning(self, e, truth, depth=3):
+        """What `e` having the given truth value means in the vocabulary: ("and", literals) = all hold, ("or", literals)
+        = at least one holds; each literal is (text, known?).  None if it cannot be expressed."""
+        if isinstance(e, ast.UnaryOp) and isinstance(e.op, ast.Not):
+            return self.meaning(e.operand, not truth, depth)
+        if isinstance(e, ast.Name) and depth > 0 and e.id not in self.markers:
+            v = shape.unalias(e, self.fn) if getattr(e, "_parent", None) is not None else e
+            if v is not e and isinstance(v, (ast.BoolOp, ast.UnaryOp, ast.Compare, ast.Call, ast.Attribute, ast.Name)):
+                return self.meaning(v, truth, depth - 1)
+        if isinstance(e, ast.BoolOp):
+            conj = isinstance(e.op, ast.And) == truth           # (a and b) true / (a or b) false: every member decided
+            parts = [self.meaning(v, truth, depth) for v in e.values]
+            if any(p is None for p in parts):
+                return None
+            out = []
+            for kind, ls in parts:
+                if len(ls) != 1 and kind != ("and" if conj else "or"):
+                    return None
+                out += ls
+            return ("and" if conj else "or"), out
+        # presence test of a marker: `u is not None`, `u`, `u is None`
+        for a, holds in shape.atoms(e):
+            pos = (holds == "t") == truth
+            name, present = None, None
+            if isinstance(a, ast.Name) and a.id in self.markers:
+                name, present = a.id, pos
+            elif isinstance(a, ast.Compare) and len(a.ops) == 1 and isinstance(a.ops[0], (ast.Is, ast.Eq)) and isinstance(a.left, ast.Name) and a.left.id in self.markers \
+                    and isinstance(a.comparators[0], ast.Constant) and a.comparators[0].value is None:
+                name, present = a.left.id, not pos
+            if name is not None:
+                ls = sorted(self.marker_literals(name))
+                return ("and", [(l, True) for l in ls]) if present else ("or", [(_neg(l), True) for l in ls])
+        l, k = self.literal(e)
+        return "and", [((l if truth else _neg(l)), k)]
+
     def knowledge(self, node):
         """(literals, clauses, unknown literals) known where `node` executes.  A clause is a frozenset of literals of
         which at least one holds (the failed conjunction of an earlier branch)."""
         lits, clauses, unknown = set(), [], set()
         for a, truth in facts(node, self.fn):
-            if isinstance(a, ast.BoolOp):
-                members = []
-                for v in a.values:
-                    # a hoisted member (`both = x and y`): take its definition
-                    v2 = shape.unalias(v, self.fn) if isinstance(v, ast.Name) else v
-                    l, _k = self.literal(v2)
-                    members.append(l if truth else _neg(l))
-                # (a and b) false -> one of the negations holds; (a or b) true -> one of the members holds
-                if (isinstance(a.op, ast.And) and not truth) or (isinstance(a.op, ast.Or) and truth):
-                    clauses.append(frozenset(members))
-                continue
-            if isinstance(a, ast.Name) and shape.unalias(a, self.fn) is not a:
+            if isinstance(a, ast.Name) and a.id not in self.markers and shape.unalias(a, self.fn) is not a:
                 continue                      # a hoisted condition: its expansion is in the list as well
-            l, k = self.literal(a)
-            l = l if truth else _neg(l)
-            (lits if k else unknown).add(l)
+            m = self.meaning(a, truth)
+            if m is None:
+                unknown.add(("" if truth else "NOT ") + "?" + norm(a))
+                continue
+            kind, ls = m
+            if kind == "and" or len(ls) == 1:
+                for l, k in ls:
+                    (lits if k else unknown).add(l)
+            else:
+                clauses.append(frozenset(l for l, _k in ls))
         return lits, clauses, unknown
 
     # ---- values
     def units(self, e):
-        e = shape.resolve(e, self.fn) if getattr(e, "_parent", None) is not None else e
+        e = self.through_helpers(self._resolved(e))
         s = norm(e)
         if s in ("self._units", "self.units"):
             return "U_s"
@@ -479,9 +574,64 @@ class _Calculus:
             return f"delta({self.units(e.func.value)},{which})"
         return "?" + s
 
+    def rebindings(self, use, name):
+        """[(value or None, literals)] for a parameter `name` read in statement `use` that an earlier sibling statement
+        rebinds conditionally (`if c: other = other.to(x)`): the values it may have (None = the original object) with the
+        vocabulary literals under which it has them.  [] if the name is not rebound before the use."""
+        loc = shape._block_and_index(use)
+        while loc is not None:
+            par, lst, idx = loc
+            for st in reversed(lst[:idx]):
+                stores = [x for x in ast.walk(st) if isinstance(x, ast.Name) and x.id == name and isinstance(x.ctx, ast.Store)]
+                if not stores:
+                    continue
+                if isinstance(st, ast.Assign) and len(st.targets) == 1 and isinstance(st.targets[0], ast.Name):
+                    return [(st.value, set())]
+                if isinstance(st, ast.If):
+                    def last(body):
+                        vals = [x.value for x in body if isinstance(x, ast.Assign) and len(x.targets) == 1 and isinstance(x.targets[0], ast.Name) and x.targets[0].id == name]
+                        simple = all(isinstance(x, ast.Assign) or not any(isinstance(y, ast.Name) and y.id == name and isinstance(y.ctx, ast.Store) for y in ast.walk(x)) for x in body)
+                        return (vals[-1] if vals else None), simple
+                    (vt, okt), (vf, okf) = last(st.body), last(st.orelse)
+                    if okt and okf:
+                        out = []
+                        for val, lab in ((vt, "t"), (vf, "f")):
+                            ls = set()
+                            for a, t in shape.conjuncts(st.test, lab):
+                                m = self.meaning(a, t)
+                                if m is not None and (m[0] == "and" or len(m[1]) == 1):
+                                    ls |= {l for l, k in m[1] if k}
+                            out.append((val, ls))
+                        return out
+                return [("?", set())]
+            if par is self.fn or isinstance(par, (ast.FunctionDef, ast.AsyncFunctionDef)):
+                return []
+            loc = shape._block_and_index(par)
+        return []
+
+    def operand_alternatives(self, e):
+        """[(operand, literals)]: the operand readings of `e`, one per value a conditionally rebound `other` may have."""
+        names = [x for x in ast.walk(e) if isinstance(x, ast.Name) and x.id == "other" and getattr(x, "_parent", None) is not None]
+        alts = self.rebindings(names[0], "other") if names else []
+        if not alts:
+            return [(self.operand(e), set())]
+        out = []
+        for val, ls in alts:
+            if val is None:
+                out.append((self.operand(e), ls))
+            elif val == "?":
+                out.append((("?", norm(e)), ls))
+            else:
+                class S(ast.NodeTransformer):
+                    def visit_Name(self, n):
+                        return val if n.id == "other" and isinstance(n.ctx, ast.Load) else n
+                from ..flow import clone
+                out.append((self.operand(S().visit(clone(e))), ls))
+        return out
+
     def operand(self, e):
         """(who, target units): who in {S, O, B}; target None = magnitude as is."""
-        e = shape.resolve(e, self.fn) if getattr(e, "_parent", None) is not None else e
+        e = self.through_helpers(self._resolved(e))
         s = norm(e)
         if s in [f"self.{a}" for a in MAG]:
             return ("S", None)
@@ -602,8 +752,9 @@ def offset_table(ck, ix):
             cs, us = by_row[name]
             if not cs:
                 continue
-            ops = sorted({(cal.operand(c.args[0]), cal.operand(c.args[1])) for c in cs}, key=repr)
-            raw_ok = all((cal.operand(c.args[0]), cal.operand(c.args[1])) != (("S", None), ("O", None)) or "SAME_UNITS" in know[id(c)][0] for c in cs)
+            pairs = [((l_, r_), know[id(c)][0] | ll_ | rl_) for c in cs for l_, ll_ in cal.operand_alternatives(c.args[0]) for r_, rl_ in cal.operand_alternatives(c.args[1])]
+            ops = sorted({p_ for p_, _l in pairs}, key=repr)
+            raw_ok = all(p_ != (("S", None), ("O", None)) or "SAME_UNITS" in l_ for p_, l_ in pairs)
             uvals = sorted({cal.units(a.value) for a in (us or default_units)})
             units = uvals[0] if len(uvals) == 1 else ("U_s" if inplace and not uvals else (None if not uvals else "/".join(uvals)))
             summary[name] = (ops, units)
@@ -630,6 +781,17 @@ def offset_table(ck, ix):
     a, b = tables["PlainQuantity._add_sub"], tables["PlainQuantity._iadd_sub"]
     ck.check(a[0] == b[0], "G-TWIN", "_add_sub/_iadd_sub|same-decision-table", b[1].loc(b[2]), "functional and in-place forms implement the same table",
              "the in-place form and the functional form differ in a branch (condition, converted operand, target or result units)")
+
+
+def _stands_for_self(defs, x: str) -> bool:
+    """`x` is `self`, or a local every definition of which is self or self converted to root/base units"""
+    if x == "self":
+        return True
+    ds = defs.defs.get(x, [])
+
+    def alts(v):
+        return alts(v.body) + alts(v.orelse) if isinstance(v, ast.IfExp) else [v]
+    return x.isidentifier() and x not in defs.params and bool(ds) and all(v is not None and _k == "assign" and all(norm(a_) in ("self", "self.to_root_units()", "self.to_base_units()") for a_ in alts(v)) for v, _k, _s in ds)
 
 
 def muldiv_rules(ck, ix):
@@ -720,22 +882,20 @@ def muldiv_rules(ck, ix):
         mags = {(b["_X"], b["_O"]) for a in MAG for a2 in MAG for (_n, b, _f) in find(ix, fi, f"magnitude_op(_X.{a}, _O.{a2})")}
         unts = {(b["_X"], b["_O"]) for (_n, b, _f) in find(ix, fi, "units_op(_X._units, _O._units)")}
 
-        def stands_for_self(x):
-            if x == "self":
-                return True
-            ds = defs.defs.get(x, [])
-            return x.isidentifier() and bool(ds) and all(v is not None and norm(v) in ("self", "self.to_root_units()", "self.to_base_units()") for v, _k, _s in ds)
+        stands_for_self = lambda x: _stands_for_self(defs, x)
         okm = bool(mags) and mags == unts and all(stands_for_self(x) and o == "other" for x, o in mags) and (short == "_mul_div" or all(x == "self" for x, _o in mags))
         ck.check(okm, "G-TAG", f"{short}|magnitude-and-units-from-same-objects", fi.loc(),
                  "magnitude and units are taken from the same (converted) objects", f"magnitude and units in {short} are no longer taken from the same (converted) objects (magnitudes of {sorted(mags)}, units of {sorted(unts)})")
     fi = ix.func(PQ, "PlainQuantity.__rtruediv__")
     # the result is built from (number / magnitude of X, 1 / units of X) for one and the same X (self, possibly converted to root units)
-    ctor = [c_ for c_ in walk_local(fi.node) if isinstance(c_, ast.Call) and norm(c_.func) in ("self.__class__", "type(self)") and len(c_.args) == 2]
-    okr = len(ctor) == 1
+    dfs = defs_of(fi)
+    ctor = [(c_, b_) for c_ in walk_local(fi.node) if isinstance(c_, ast.Call) and len(c_.args) == 2 for b_ in [shape.match("_X.__class__", c_.func) or shape.match("type(_X)", c_.func)] if b_ is not None]
+    okr = len(ctor) == 1 and _stands_for_self(dfs, ctor[0][1]["_X"])
     if okr:
-        m_, u_ = [shape.unalias(a_, fi.node) for a_ in ctor[0].args]
+        m_, u_ = [shape.unalias(a_, fi.node) for a_ in ctor[0][0].args]
         okr = isinstance(m_, ast.BinOp) and isinstance(m_.op, ast.Div) and isinstance(u_, ast.BinOp) and isinstance(u_.op, ast.Div)
-        okr = okr and norm(m_.right).endswith("._magnitude") and norm(u_.right).endswith("._units") and norm(m_.right)[:-len("._magnitude")] == norm(u_.right)[:-len("._units")] and norm(u_.left) == "1" and "other" in " ".join(defs_of(fi).roots(m_.left))
+        okr = okr and norm(m_.right).endswith("._magnitude") and norm(u_.right).endswith("._units") and norm(m_.right)[:-len("._magnitude")] == norm(u_.right)[:-len("._units")] and norm(u_.left) == "1" \
+            and _stands_for_self(dfs, norm(m_.right)[:-len("._magnitude")]) and "other" in " ".join(dfs.roots(m_.left))
     ck.check(okr, "G-TAG", "__rtruediv__|number-over-quantity", fi.loc(),
              "other / self with reciprocal units", "__rtruediv__ no longer computes other / self with reciprocal units")
 
